@@ -29,11 +29,13 @@ where
 
         // No overlay map: truncated values ride in `pushed` and `stored_len`
         // is clamped to where disk still agrees with the rolled-back state.
-        let (stored_len, pushed) = if change.truncated_values.is_empty() {
-            (change.prev_stored_len, change.prev_pushed)
-        } else {
-            let agree_at = change.truncated_start.min(self.real_stored_len());
-            let mut buf = change.truncated_values;
+        // After an earlier rollback in the same chain `stored_len` may already sit
+        // below `truncated_start`, the rest of the agreed prefix riding in `pushed`.
+        let (stored_len, pushed) = {
+            let agree_at = change.truncated_start.min(self.stored_len());
+            let carried = (change.truncated_start - agree_at).min(self.base.pushed().len());
+            let mut buf = self.base.pushed()[..carried].to_vec();
+            buf.extend(change.truncated_values);
             buf.extend(change.prev_pushed);
             (agree_at, buf)
         };
